@@ -401,10 +401,17 @@ def scen_threads(rng, n):
     makers = ["(interval 10)", "(timer 15)", "(observe_on (interval 10))", "(subscribe_on (from_iter 1 2 3 4 5 6))", "(observe_on (from_iter 1 2 3 4 5 6))",
               "(debounce 10 (tsrc 0 (3 (n 1)) (3 (n 2)) (30 (n 3)) (5 c)))", "(timeout 20 (tsrc 0 (5 (n 1)) (5 (n 2)) (5 c)))",
               "(timeout 20 (tsrc 0 (5 (n 1)) (50 (n 2))))", "(delay 5 (tsrc 0 (1 (n 1)) (1 (n 2)) (1 c)))",
-              "(observe_on (observe_on (interval 10)))", "(merge (interval 10) (interval 15))", "(timeout 30 (interval 10))"]
+              "(observe_on (observe_on (interval 10)))", "(merge (interval 10) (interval 15))", "(timeout 30 (interval 10))",
+              # synchronous slow sources: the subscription can end (on the worker) while `subscribe` is still running
+              "(observe_on (slow 0 (5 (n 1)) (5 (n 2)) (5 (n 3)) (5 (n 4)) (5 c)))", "(subscribe_on (slow 0 (5 (n 1)) (5 (n 2)) (5 (n 3)) (5 c)))",
+              "(observe_on (map inc (slow 0 (5 (n 1)) (5 (n 2)) (5 c) (20 (n 9)))))"]
     enders = ["(take 2 %s)", "(first %s)", "(take_until %s (timer 25))", "(amb %s (timer 12))", "(take_while (lt 2) %s)", "(take 3 (map inc %s))"]
     def period(text):
         ps = [int(x) for x in re.findall(r"\((?:interval|timer|timeout|debounce|delay) (\d+)", text)]
+        # a synchronous slow source run by a worker (subscribe_on): the worker is inside the SOURCE's own sleep
+        # when the subscription ends and can only leave when that sleep is over
+        for m in re.finditer(r"\(slow \d+ ((?:\(\d+ (?:\([ne] \d+\)|c)\) ?)+)", text):
+            ps += [int(x) for x in re.findall(r"\((\d+) ", m.group(1))]
         return max(ps) if ps else 0
     for mk in makers:
         for en in enders:
